@@ -61,7 +61,9 @@ AltPats == {Pat("kind", "string", 0, "-", NoTy), Pat("kind", "struct", 0, "-", N
 PermLists(S) == {s \in UNION {[1..j -> S] : j \in 1..Cardinality(S)} : \A a, b \in DOMAIN s : a # b => s[a] # s[b]}
 PatLists == PermLists(BasePats) \cup {<<a>> : a \in AltPats} \cup {<<a, Pat("otherwise", "-", 0, "-", NoTy)>> : a \in AltPats}
                                 \cup {<<a, b>> : a \in AltPats, b \in BasePats}
-MatchCases == {[part |-> "match", fn |-> fn, ps |-> ps, probe |-> pr] : fn \in {"MatchFor", "Either"}, ps \in PatLists, pr \in Probes}
+\* nilEff: the effects return nil (handlers called for their side effect): the accepting pattern's effect still runs and nothing panics
+MatchCases == {[part |-> "match", fn |-> fn, ps |-> ps, probe |-> pr, nilEff |-> FALSE] : fn \in {"MatchFor", "Either"}, ps \in PatLists, pr \in Probes}
+              \cup {[part |-> "match", fn |-> fn, ps |-> ps, probe |-> pr, nilEff |-> TRUE] : fn \in {"MatchFor", "Either"}, ps \in {q \in PatLists : Len(q) <= 2}, pr \in Probes}
 ObjLists == {<<>>, <<O("int", FALSE)>>, <<O("string", FALSE)>>, <<O("int", FALSE), O("string", FALSE)>>, <<O("string", FALSE), O("int", FALSE)>>,
              <<O("invalid", TRUE)>>, <<O("int", FALSE), O("int", FALSE)>>, <<O("struct", FALSE)>>, <<O("invalid", TRUE), O("invalid", TRUE)>>}
 NewCases == {[part |-> "newcompdata", ty |-> ty, objs |-> os] : ty \in {TypeA, TypeS, [t |-> "nil"], [t |-> "product", kinds |-> <<>>]}, os \in ObjLists}
